@@ -19,6 +19,7 @@ NAMES = {
     "member_Error": "Error", "receiver_o": "o", "receiver_m": "m", "slash": "x/y", "initialism": "user id http url", "camel": "myThingID",
     "underscore_first": "_private thing", "dollar": "$thing", "single_letter": "a", "go_test_suffix": "thing_test",
     "backquote": "the `id`", "doublequote": "say \"x\" now", "backslash": "a\\b thing",
+    "pkg_models": "models", "pkg_operations": "operations",
     "keyword_cap_Type": "Type", "keyword_cap_Range": "Range", "keyword_cap_Default": "Default", "keyword_cap_Func": "Func", "keyword_cap_Map": "Map",
 }
 
